@@ -1,5 +1,6 @@
 """C04 -- freeze protection and the clock guard (TufClient.tla, MC_Freeze)."""
 import clientlib
+import lifecyclelib
 
 PID = "C04"
 FIELDS = ["time", "trusted"]
@@ -34,8 +35,14 @@ def run(tier, seed):
     v, cov, a, _ = clientlib.run_plan(PID, tier, seed, mcs, gens, FIELDS, nontrivial,
         "behaviours = every path of MC_Freeze: each of root(s)/timestamp/snapshot/targets expired or not, an expired intermediate root, both enforcement settings, the clock jumping to any tick between any two phases and before a read; non-trivial = the clock moved and something expires; distinct TLC paths",
         ASSUME)
+    # the same property at the system level: Lifecycle.tla behaviours in which tuftool publishes metadata with
+    # expirations in the past and a client with a datastore refreshes (enforcement on)
+    cov.update(lifecyclelib.run_into(v, PID, tier, seed, scale=0.6))
     return v.finish("model_checking", cov, a)
 
 
 def replay(path, seed):
+    import json
+    if json.load(open(path))["replay"].get("lifecycle"):
+        return lifecyclelib.replay(path, PID, seed)
     return clientlib.replay_one(PID, path, seed, FIELDS)
